@@ -484,7 +484,10 @@ pub fn record(mode: &str, seed: u64, n: usize, out: &mut Out) {
                 let mut x = vec![0u8; nj];
                 x.extend(b"DLT\x01");
                 out.calls += 1;
-                let res = match forward_to_next_storage_header(&x) { Some((d, rest)) => json!({"v": "found", "dropped": crate::build::limbs_u128(d as u128), "rest_len": rest.len()}), None => json!({"v": "none", "dropped": [0], "rest_len": 0}) };
+                let res = match catch_unwind(AssertUnwindSafe(|| forward_to_next_storage_header(&x).map(|(d, rest)| (d, rest.len())))) {
+                    Ok(Some((d, rl))) => json!({"v": "found", "dropped": crate::build::limbs_u128(d as u128), "rest_len": rl}),
+                    Ok(None) => json!({"v": "none", "dropped": [0], "rest_len": 0}),
+                    Err(_) => json!({"v": "panic", "dropped": [0], "rest_len": 0}) };
                 out.emit(json!({"op": "forwardrep", "fill": 0, "n": crate::build::limbs_u128(nj as u128), "res": res}), true);
             }
             for _ in 0..n {
